@@ -41,6 +41,17 @@ def run(ctx):
     if n:
         rl = return_leaves(ctx, n) | {l for b in sorted(n.reachable_from([0])) if n.blocks[b]["t"]["k"] == "switch" for l in ctx.leaves(n.switch_discr_expr(b))}
         ctx.check(has_all(rl, ["a1", "a2", "const:" + G + "SIGNER_SIZE"]), "C11.needed.signer", n.path, "reconstruction-side count depends on length, signer presence and SIGNER_SIZE", key="C11.needed.signer")
+        # every answer - including the "one share is enough" early answers - is decided with the
+        # signer-adjusted first-share capacity: the value returned or one of the conditions that
+        # select that return depends on SIGNER_SIZE / the signer flag
+        from engine.rules import exit_sites as _exits
+        for x in _exits(n):
+            ls = set(ctx.leaves(x["expr"]))
+            for sw, lab, _d in n.edge_conditions(x["block"]):
+                ls |= ctx.leaves(n.switch_discr_expr(sw))
+            ctx.check(has_leaf(ls, "const:" + G + "SIGNER_SIZE"), "C11.needed.every-exit-signer", n.path,
+                      "the share count returned at %s is decided with the signer-adjusted first-share capacity" % x["loc"], site=x["loc"],
+                      key="C11.needed.every-exit-signer|" + ("const" if not has_leaf(ctx.leaves(x["expr"]), "a1") else "computed"))
     r = ctx.anchor(T + "blob::Blob::reconstruct")
     if r:
         require_guard(ctx, r, Has("call:*Namespace::is_reserved", name="reserved namespace rejected"), "C11.reconstruct.reserved")
